@@ -12,6 +12,8 @@ GenNext == \E op \in Ops : /\ Enabled(s, op)
                            \* the model does not know: behaviours for replay use them on one prefix at a time
                            /\ (op.k \in {"peerdown", "markllgr"} =>
                                  Cardinality({p \in Prefix : Has(s, p, op.src)}) <= 1)
+                           /\ (op.k \in {"nhdown", "nhup", "softin"} =>
+                                 Cardinality({p \in Prefix : Holds(s, p, op.src)}) <= 1)
                            \* the LLGR mark lives on the session object: a notification still in the channel
                            \* keeps the old session's mark.  The model keeps one mark per source, so a source
                            \* goes down in replayed behaviours only once nothing about it is undelivered.
